@@ -157,6 +157,14 @@ def run_gofuzz(part, env, log, timeout_s, repo, execs):
     return (0 if summ["complete"] else p.returncode), time.time() - t0
 
 
+def has_complete_summary(path):
+    """a child's summary file exists and is the final one (interim summaries carry complete: false)"""
+    try:
+        return bool(json.load(open(path)).get("complete"))
+    except Exception:  # noqa
+        return False
+
+
 def run_child(spec):
     if spec[0] == "gofuzz":
         return run_gofuzz(*spec[1:])
@@ -168,7 +176,7 @@ def run_child(spec):
     # a child that died inside the Go runtime itself (no summary, a crash whose stack holds no frame of
     # the code under test - e.g. a SIGSEGV in runtime.GOMAXPROCS) says nothing about the property: run
     # that shard once more; the first log is kept. A crash with an ebu frame is never retried.
-    if p.returncode not in (0, 124, 137) and not os.path.exists(env.get("VERIF_OUT", "")):
+    if p.returncode not in (0, 124, 137) and not has_complete_summary(env.get("VERIF_OUT", "")):
         try:
             logtxt = open(log, errors="replace").read()
         except OSError:
@@ -186,7 +194,7 @@ def run_child(spec):
                 f.write("(attempt %d: the one before was aborted by testing/synctest's WaitGroup bookkeeping, see %s.synctest%d)\n" % (tries + 1, os.path.basename(log), tries))
                 f.flush()
                 p = subprocess.run(cmd, cwd=os.path.dirname(log), env=env, stdout=f, stderr=subprocess.STDOUT)
-            if p.returncode in (0, 124, 137) or os.path.exists(env.get("VERIF_OUT", "")):
+            if p.returncode in (0, 124, 137) or has_complete_summary(env.get("VERIF_OUT", "")):
                 return p.returncode, time.time() - t0
             logtxt = open(log, errors="replace").read()
             m = re.search(r"^(panic: .*|fatal error: .*|SIGSEGV: .*|SIGBUS: .*)$", logtxt, re.M)
